@@ -8,7 +8,7 @@ CHECKS = {
   "technique": "stateful property-based testing (rapid) against a list model",
  },
  "C03": {
-  "text": "Generated search over import scenarios (constructor x hint history x prefix x canonical path x body; one in four with part of the settings applied after a first render) with go/types as oracle: the rendered file is type-checked against fabricated packages whose declared names only match when jennifer's alias/no-alias decision is right; every marker symbol must resolve to the package it was built with, through one qualifier per path, with zero type errors. No counter-example among the generated scenarios; absence is not established.",
+  "text": "Generated search over import scenarios (constructor x hint history x prefix x canonical path x body; one in four staged: settings or part of the body arrive after a first render, fragments are rendered against the File first), plus Qual names that are selector chains next to paths that end like them, with go/types as oracle: the rendered file is type-checked against fabricated packages whose declared names only match when jennifer's alias/no-alias decision is right; every marker symbol must resolve to the package it was built with, through one qualifier per path, with zero type errors. No counter-example among the generated scenarios; absence is not established.",
   "note": TB + " Fabricated importer: one synthetic package per path; std names read from GOROOT/src package clauses.",
   "technique": "property-based testing (rapid) with a go/types resolution oracle over fabricated packages",
  },
@@ -28,7 +28,7 @@ CHECKS = {
   "technique": "property-based testing (rapid) with bare-vs-qualified predicates and go/types resolution",
  },
  "C01": {
-  "text": "Round-trip search: every .go file of the installed toolchain's src tree (thorough: both installed toolchains, ~14.5k files / ~220k declarations) plus grammar-generated programs is translated construct by construct into the documented DSL element, rendered, re-parsed and compared node-by-node with the source tree. No counter-example among them; absence for all Go programs is not established (bounded depth/arity, files needing type information are skipped and counted). Each translated file is also round-tripped with the alternative elements (Tag(map) for struct tags, Values(Dict) for keyed literals); 24 shapes of very deep / very wide programs (sizes to 2000).",
+  "text": "Round-trip search: every .go file of the installed toolchain's src tree (thorough: both installed toolchains, ~14.5k files / ~220k declarations) plus grammar-generated programs is translated construct by construct into the documented DSL element, rendered, re-parsed and compared node-by-node with the source tree. No counter-example among them; absence for all Go programs is not established (bounded depth/arity, files needing type information are skipped and counted). Each translated file is also round-tripped with the alternative elements (Tag(map) for struct tags, Values(Dict) for keyed literals); 24 shapes of very deep / very wide programs (sizes to 2000); every third program also unformatted; predeclared names and built-in calls through their own constructs.",
   "note": TB + " The translator is part of the check: on the unchanged tree no file mismatches; a translator gap that only a new corpus would expose would be reported as a violation (DESIGN 13).",
   "technique": "round-trip property over a real-program corpus and generated programs (go/ast -> DSL -> bytes -> go/ast equality)",
  },
